@@ -1,8 +1,34 @@
-(** C05_micro. Accounting under every interleaving of the micro steps of puts, deletes and reads (calls split at every schedule point)
+(** C05_micro. Accounting under every interleaving of the micro steps (calls, worker commands and shutdown() split at every schedule point)
     This file only pins statements: every theorem restates a lemma of proofs/ verbatim and is closed by it. *)
 From CacheD Require Import Base Sketch Model Window Micro.
 From CacheD.proofs Require Import Defs ApiProofs HistoryProofs StatsProofs.
-From CacheD.proofs Require Import MicroProofs.
+From CacheD.proofs Require Import MicroProofs MicroLedger.
+
+(** (C05, C01 at every micro state of every micro schedule, no condition on the events): as long as the worker has
+   not panicked, the total weight is exactly the sum of the charges, the charged ids are pairwise distinct, every charge
+   is positive and the total lies between 0 and i64::MAX - inside the windows of put_or_update, of the worker's put and
+   Delete and of shutdown() as well *)
+Theorem C05_micro_ledger_exact_all :
+  forall cfg evs, c_debug cfg = true ->
+  let s := mbase (mrun cfg evs) in
+  worker s <> Dead ->
+  used s = weights_sum (weights s) /\ NoDup (map fst (weights s)) /\
+  (forall id wk, alookup id (weights s) = Some wk -> 0 < w_weight wk) /\ 0 <= used s <= i64_max.
+Proof. exact micro_ledger_exact_all. Qed.
+Print Assumptions C05_micro_ledger_exact_all.
+
+(** (ids): at every micro state the ids of the puts that are queued or held by a parked or stopped caller are
+   pairwise distinct, not yet charged and below the id counter, and so is every charged id: no two keys can ever share a
+   charge *)
+Theorem C05_micro_ids_fresh_all :
+  forall cfg evs, c_debug cfg = true ->
+  let s := mbase (mrun cfg evs) in
+  worker s <> Dead ->
+  NoDup (put_ids (pending_cmds s)) /\
+  (forall id, In id (put_ids (pending_cmds s)) -> id < next_id s /\ alookup id (weights s) = None) /\
+  (forall id wk, alookup id (weights s) = Some wk -> id < next_id s).
+Proof. exact micro_ids_fresh_all. Qed.
+Print Assumptions C05_micro_ids_fresh_all.
 
 (** the micro steps of one call, executed back to back by a caller that is not inside another call, are the
    atomic call of Model.v: same state, same observation, and the caller is out of every window again *)
